@@ -64,13 +64,17 @@ func (c *dynamicCollector) Add(in interface{}) error {
 
 	lastChunk := c.chunks[len(c.chunks)-1]
 
-	docHash, _ := metricKeyHash(doc)
+	docHash, num := metricKeyHash(doc)
 	if c.hash == docHash {
 		return errors.WithStack(lastChunk.Add(doc))
 	}
 
+	// the schema changed: start a new chunk and remember the new
+	// schema, so that the following documents are compared to it.
 	chunk := newBatchCollector(c.maxSamples)
 	c.chunks = append(c.chunks, chunk)
+	c.hash = docHash
+	c.currentNum = num
 
 	return errors.WithStack(chunk.Add(doc))
 }
